@@ -1,6 +1,9 @@
 #!/bin/bash
-# tools/seed_matrix.sh : every seeded change against the check of its own property (quick tier). One line each.
+# tools/seed_matrix.sh [ids...] : every seeded change (both rounds) against the check of its own property (quick tier). One line each.
 cd "$(dirname "$0")/.."
-for id in C01 C02 C03 C04 C05 C06 C07 C08 C09 C10 C11 C12 C13 C14 C15 C16 C17 C18 C19 C20; do
-  echo "seed $id vs check $id: $(tools/seed.sh $id /verif/seeded/$id | cut -c1-260)"
+ids="$@"
+[ -z "$ids" ] && ids=$(ls seeded | grep -E '^C[0-9]{2}b?$')
+for id in $ids; do
+  chk=${id%b}
+  echo "seed $id vs check $chk: $(tools/seed.sh $chk /verif/seeded/$id | cut -c1-260)"
 done
